@@ -449,12 +449,22 @@ def shrink(case):
             return oracle(c) is not None
         if still_items(case['items']):
             items = common.shrink_list(case['items'], still_items)
+            for k in range(len(items)):
+                if len(items[k]) > 1:
+                    def still_chars(chars, k=k):
+                        return still_items(items[:k] + [''.join(chars)] + items[k + 1:])
+                    items[k] = ''.join(common.shrink_list(list(items[k]), still_chars))
             case = dict(case, items=items, value=','.join(py_quote_if_needed(i) for i in items), style='canon')
         return case
 
     def still(chars):
-        return oracle(dict(case, **{key: ''.join(chars)})) is not None
+        v = ''.join(chars)
+        if case.get('expect') == 'ValueError' and GRAMMAR_RE.match(v):
+            return False         # the shrunk string must still be one the written grammar rejects
+        return oracle(dict(case, **{key: v})) is not None
     chars = common.shrink_list(list(case[key]), still) if len(case[key]) > 1 else list(case[key])
+    if ''.join(chars) != case[key] and 'why' in case:
+        case['why'] = 'text the grammar rejects (shrunk from a string with: %s)' % case['why']
     case[key] = ''.join(chars)
     return case
 
